@@ -1,12 +1,14 @@
 import Nervus.Driver.Util
 import Nervus.Driver.OKey
 import Nervus.Driver.Cypher
+import Nervus.Driver.CypherUpdate
 open Nervus.Driver
 
 /-- stream registry: one line per stream (kept one-per-line so that merges are unions) -/
 def streams : List (String × Stream) := [
   ("okey", OKeyStream.stream),
   ("query", CypherStream.stream),
+  ("update", UpdateStream.stream),
 ]
 
 def main (args : List String) : IO UInt32 := do
